@@ -190,6 +190,7 @@ func vHybridRun(tr *vTrace, id string, salt int64) (hang bool) {
 	start := int64(1 + rnd.Intn(5000))
 	tr.Emit(vRec{"ev": "reset", "id": id, "maxsize": maxsize, "pool": 0, "door": 0, "loading": vb(loading), "mode": "hybrid",
 		"qcap": WriteChanSize, "t": start, "thresh": vThresh(20), "tick": vTickU(20), "failing": vb(failing)})
+	before := vStoreGoroutines()
 	h, sec := vNewHybrid(tr, maxsize, loading, start)
 	defer func() {
 		h.quiet.Store(true)
@@ -216,7 +217,14 @@ func vHybridRun(tr *vTrace, id string, salt int64) (hang bool) {
 		} else {
 			v, ok, err = h.store.GetWithSecodary(k)
 		}
-		tr.Emit(vRec{"ev": "ret", "p": c.name, "op": "hget", "ok": vb(ok), "v": v, "n": vb(err != nil), "n2": 0})
+		code := 0
+		if err != nil {
+			code = 1
+			if errors.Is(err, ErrCacheClosed) {
+				code = 2
+			}
+		}
+		tr.Emit(vRec{"ev": "ret", "p": c.name, "op": "hget", "ok": vb(ok), "v": v, "n": code, "n2": 0})
 	}
 	hdel := func(k int) {
 		tr.Emit(vRec{"ev": "call", "p": c.name, "op": "hdel", "k": k, "v": 0, "cost": 0, "ttl": 0, "t": h.nowU()})
@@ -258,6 +266,32 @@ func vHybridRun(tr *vTrace, id string, salt int64) (hang bool) {
 	for k := 1; k <= keys; k++ {
 		hget(k)
 	}
+	// C10 on the hybrid cache: Close, then nothing is served (also not out of the secondary tier), writes
+	// have no effect and the maintenance, ticker and worker goroutines are gone
+	tr.Emit(vRec{"ev": "call", "p": c.name, "op": "close", "k": 0, "v": 0, "cost": 0, "ttl": 0, "t": h.nowU()})
+	if !c.timed(4*time.Second, h.store.Close) {
+		tr.Emit(vRec{"ev": "hang", "p": "c1", "op": "close"})
+		return true
+	}
+	tr.Emit(vRec{"ev": "ret", "p": c.name, "op": "close", "ok": 1, "v": 0, "n": 0, "n2": 0})
+	for k := 1; k <= keys; k++ {
+		k := k
+		if !c.timed(4*time.Second, func() {
+			if k%2 == 0 {
+				c.Set(k, 1, 0)
+			}
+			hget(k)
+		}) {
+			tr.Emit(vRec{"ev": "hang", "p": "c1", "op": "hget"})
+			return true
+		}
+	}
+	after := vStoreGoroutines()
+	for i := 0; i < 200 && after > before; i++ {
+		time.Sleep(5 * time.Millisecond)
+		after = vStoreGoroutines()
+	}
+	tr.Emit(vRec{"ev": "census", "before": before, "after": after})
 	tr.Emit(vRec{"ev": "end", "stuck": 0, "skipped": 0})
 	return false
 }
